@@ -954,6 +954,8 @@ import posixpath
 def c10_cases(tier, rng):
     names = ["a", "b", "é"]
     dirs = ["/"] + ["/" + x for x in names] + ["/%s/%s" % (x, y) for x in names[:2] for y in names[:2]] + ["/a/b/a", "/a/b/a/b"]
+    # directories whose names extend one another (a, ab, a.b): "inside the link's directory" is a matter of components, not of string prefixes
+    dirs += ["/ab", "/a.b", "/a/ab"]
     cases = []
     for ld in dirs:
         for td in dirs:
@@ -967,7 +969,9 @@ def c10_cases(tier, rng):
                 for spelling in ["abs", "rel"]:
                     cases.append((link, target, tk, spelling))
     if tier == "quick":
-        cases = rng.sample(cases, min(len(cases), 700))
+        ext = {"/a", "/ab", "/a.b", "/a/ab"}
+        forced = [c for c in cases if posixpath.dirname(c[0]) in ext and (posixpath.dirname(c[1]) in ext or c[1] in ext)]
+        cases = forced + rng.sample(cases, min(len(cases), 700))
     return cases
 
 
